@@ -97,6 +97,8 @@ type Ctx struct {
 	Notes            []string
 	Jobs             int
 	Extra            map[string]interface{}
+	CrossChecked     int // query files given to all three solvers (thorough tier)
+	CrossTimeouts    int
 	ReplayOnly       *ReplayFile // replay mode: only run this saved input natively
 	ReplayPath       string
 	ReplayResult     *NativeResult
@@ -239,6 +241,9 @@ func (c *Ctx) runJob(j Job) {
 	dir := filepath.Join(c.Scratch, sanitize(j.Name))
 	os.MkdirAll(dir, 0o755)
 	outs := e.DischargeBatched(obs, c.Backend, dir, j.TimeoutS, c.Par)
+	if c.Tier == "thorough" {
+		c.crossCheckSolvers(j, dir)
+	}
 	c.Logf("job %-36s exec %.1fs (feasibility: %d solver calls %.1fs, %d cache hits) solve %.1fs instrs=%d merges=%d terms=%d obligations=%d", j.Name, res.ExecS, res.FeasCalls, res.FeasSecs, res.FeasHits, time.Since(t0).Seconds()-res.ExecS, e.Instrs, e.Merges, e.S.Created, len(obs))
 
 	c.mu.Lock()
@@ -309,6 +314,51 @@ func contains(l []string, s string) bool {
 		}
 	}
 	return false
+}
+
+// crossCheckSolvers (thorough tier): the query files of this job that the portfolio answered are
+// given to the other two solvers as well; two conclusive answers that differ make the run
+// inconclusive (a solver or encoding defect), timeouts of the slower solvers are only counted.
+func (c *Ctx) crossCheckSolvers(j Job, dir string) {
+	files, _ := filepath.Glob(filepath.Join(dir, "*.smt2"))
+	budget := 2 // files per job
+	for _, f := range files {
+		if strings.HasSuffix(f, ".model.smt2") {
+			continue
+		}
+		if budget == 0 {
+			break
+		}
+		budget--
+		answers := map[string]string{}
+		var amu sync.Mutex
+		var wg sync.WaitGroup
+		for _, be := range []solver.Backend{solver.Z3New, solver.Z3, solver.CVC5} {
+			wg.Add(1)
+			go func(be solver.Backend) {
+				defer wg.Done()
+				r := solver.RunFile(be, f, 30)
+				amu.Lock()
+				answers[be.Name] = r.Status
+				amu.Unlock()
+			}(be)
+		}
+		wg.Wait()
+		c.mu.Lock()
+		c.CrossChecked++
+		conclusive := ""
+		for _, a := range answers {
+			if a == "sat" || a == "unsat" {
+				if conclusive != "" && conclusive != a {
+					c.Inconclusive = append(c.Inconclusive, fmt.Sprintf("%s: solvers disagree on %s: %v", j.Name, filepath.Base(f), answers))
+				}
+				conclusive = a
+			} else {
+				c.CrossTimeouts++
+			}
+		}
+		c.mu.Unlock()
+	}
 }
 
 func round3(f float64) float64 { return float64(int(f*1000)) / 1000 }
@@ -474,6 +524,8 @@ func (c *Ctx) WriteEvidence() error {
 		"solver":                        c.Backend.Name,
 		"solver_seconds_total":          round3(c.SolverSeconds),
 		"symbolic_execution_seconds":    round3(c.ExecSeconds),
+		"solver_cross_check_files":      c.CrossChecked,
+		"solver_cross_check_timeouts":   c.CrossTimeouts,
 		"inconclusive":                  c.Inconclusive,
 		"engine_mismatches":             c.Mismatches,
 		"known_findings_matched":        c.KnownHits,
